@@ -186,6 +186,44 @@ func C16(p *load.Program, run *report.Run) {
 			}
 		}
 		ta, nsan := cx.taint(f, nil, 0, false)
+		// a helper that is handed the connection and does both — receives the labels and resolves them by
+		// equality, returning nothing that depends on them otherwise — is part of the role; what it reports
+		// (its error result) must then end the role with an error
+		for _, b := range f.Blocks {
+			for _, ins := range b.Instrs {
+				c, ok := ins.(ssa.CallInstruction)
+				if !ok {
+					continue
+				}
+				h := c.Common().StaticCallee()
+				if h == nil || h == f || h.Blocks == nil || !load.InModule(h) || c16base(h) || isConnReceive(c) {
+					continue
+				}
+				hrecv := 0
+				for _, hb := range h.Blocks {
+					for _, hi := range hb.Instrs {
+						if hc, ok := hi.(ssa.CallInstruction); ok && isConnReceive(hc) {
+							hrecv++
+						}
+					}
+				}
+				if hrecv == 0 {
+					continue
+				}
+				hta, hnsan := cx.taint(h, nil, 1, false)
+				if hnsan == 0 || len(hta.TaintedReturns()) > 0 {
+					continue
+				}
+				nrecv += hrecv
+				nsan += hnsan
+				hkey := key + "/" + h.Name()
+				if why := verdictDropped(f, c); why != "" {
+					run.Violate("result-from-equality", hkey, p.Rel(c.Pos()), why, nil)
+				} else {
+					run.OK("result-from-equality", hkey, p.Rel(c.Pos()), fmt.Sprintf("helper with %d receive sites and %d equality tests; its error ends the role", hrecv, hnsan))
+				}
+			}
+		}
 		run.Count("receive-sites", nrecv)
 		run.Count("equality-sites", nsan)
 		bad := ta.TaintedReturns()
@@ -702,4 +740,115 @@ func labelEqualities(g *ssa.Function) []*eqTest {
 		}
 	}
 	return out
+}
+
+// verdictDropped: the error result of the call c in f is the verdict of a label-resolving helper.  On every
+// path on which it is non-nil the function must return a non-nil error: starting after the call, branches on
+// `err != nil` / `err == nil` are followed only where the error is non-nil, and a return whose error result
+// is the constant nil is reached with the verdict dropped.
+func verdictDropped(f *ssa.Function, c ssa.CallInstruction) string {
+	v, ok := c.(ssa.Value)
+	if !ok {
+		return "the helper's result is discarded: its verdict on the received labels is dropped"
+	}
+	res := c.Common().Signature().Results()
+	if res.Len() == 0 || res.At(res.Len()-1).Type().String() != "error" {
+		return ""
+	}
+	var errv ssa.Value
+	if res.Len() == 1 {
+		errv = v
+	} else if v.Referrers() != nil {
+		for _, r := range *v.Referrers() {
+			if ex, ok := r.(*ssa.Extract); ok && ex.Index == res.Len()-1 {
+				errv = ex
+			}
+		}
+	}
+	if errv == nil {
+		return "the helper's error result is not taken: its verdict on the received labels is dropped"
+	}
+	isErr := func(x ssa.Value) bool {
+		if x == errv {
+			return true
+		}
+		// the error stored in a variable and read back
+		if ld, ok := x.(*ssa.UnOp); ok && ld.Op == token.MUL {
+			if al, ok := ld.X.(*ssa.Alloc); ok && al.Referrers() != nil {
+				for _, r := range *al.Referrers() {
+					if st, ok := r.(*ssa.Store); ok && st.Val == errv {
+						return true
+					}
+				}
+			}
+		}
+		if ph, ok := x.(*ssa.Phi); ok {
+			for _, e := range ph.Edges {
+				if e == errv {
+					return true
+				}
+			}
+		}
+		return false
+	}
+	seen := map[*ssa.BasicBlock]bool{}
+	var walk func(b *ssa.BasicBlock) string
+	walk = func(b *ssa.BasicBlock) string {
+		if seen[b] {
+			return ""
+		}
+		seen[b] = true
+		last := b.Instrs[len(b.Instrs)-1]
+		switch t := last.(type) {
+		case *ssa.Return:
+			if len(t.Results) == 0 {
+				return ""
+			}
+			e := t.Results[len(t.Results)-1]
+			if k, isConst := e.(*ssa.Const); isConst && k.IsNil() {
+				return "the helper reports an unknown label through its error result, but a path on which that error is non-nil reaches this function's `return …, nil`: the verdict is dropped and a value that was not derived from label equality is returned as success"
+			}
+			return ""
+		case *ssa.If:
+			if bo, ok := t.Cond.(*ssa.BinOp); ok && (bo.Op == token.NEQ || bo.Op == token.EQL) {
+				var other ssa.Value
+				if isErr(bo.X) {
+					other = bo.Y
+				} else if isErr(bo.Y) {
+					other = bo.X
+				}
+				if k, isConst := other.(*ssa.Const); isConst && k.IsNil() {
+					// follow only the side on which the error is non-nil
+					side := 0
+					if bo.Op == token.EQL {
+						side = 1
+					}
+					return walk(b.Succs[side])
+				}
+			}
+		}
+		for _, s := range b.Succs {
+			if why := walk(s); why != "" {
+				return why
+			}
+		}
+		return ""
+	}
+	// start after the call: the rest of its block is straight-line, then the successors
+	blk := c.Block()
+	seen[blk] = false
+	last := blk.Instrs[len(blk.Instrs)-1]
+	if _, isRet := last.(*ssa.Return); isRet {
+		return walk(blk)
+	}
+	if iff, ok := last.(*ssa.If); ok {
+		_ = iff
+		return walk(blk)
+	}
+	for _, s := range blk.Succs {
+		if why := walk(s); why != "" {
+			return why
+		}
+	}
+	return ""
 }
